@@ -1324,6 +1324,14 @@ void apply_include_op(const Op& op)
         for(long k = 0; k < len; k++)
             g.fs["/sim/in/cyc" + std::to_string(k) + ".xml"].data = "<?xml version=\"1.0\"?>\n" + inc(k + 1 == len ? "in/cyc0.xml" : "in/cyc" + std::to_string(k + 1) + ".xml") + "\n";
     }
+    else if(n == "sibcycle")
+    {
+        // a cycle closed through a *non-first* include of a fragment: main -> a; a -> leaf (plain types), a -> b; b -> a
+        g.fs["/sim/in/sc_leaf.xml"].data = "<?xml version=\"1.0\"?>\n<types></types>\n";
+        g.fs["/sim/in/sc_a.xml"].data = "<?xml version=\"1.0\"?>\n" + inc("in/sc_leaf.xml") + (op.uarg(0) % 2 ? inc("in/sc_leaf.xml") : std::string()) + inc("in/sc_b.xml") + "\n";
+        g.fs["/sim/in/sc_b.xml"].data = "<?xml version=\"1.0\"?>\n" + (op.uarg(1) % 2 ? inc("in/sc_leaf.xml") : std::string()) + inc("in/sc_a.xml") + "\n";
+        insert_before_end(inc("in/sc_a.xml"));
+    }
     else if(n == "diamond")
     {
         // two includes of the same (empty-typed) file
@@ -2001,8 +2009,8 @@ Plan gen_c09(u64 seed, const std::string& tier)
     else if(family <= 6)
     {
         p.set("mode", "include-graph");
-        static const char* incs[] = {"inc.split", "inc.split", "inc.self", "inc.cycle", "inc.diamond", "inc.missing", "inc.dir", "inc.empty", "inc.relative", "inc.garbage"};
-        const char* k = incs[fl.below(10)];
+        static const char* incs[] = {"inc.split", "inc.split", "inc.self", "inc.cycle", "inc.diamond", "inc.missing", "inc.dir", "inc.empty", "inc.relative", "inc.garbage", "inc.sibcycle"};
+        const char* k = incs[fl.below(11)];
         Op m;
         m.name = k;
         m.s = {s};
